@@ -215,10 +215,6 @@ theorem parse_result_cases (g : Grammar) (chk : Bytes → Option Cause) (toks : 
   | panic w => rw [h] at this; cases this
   | unmodelled w => rw [h] at this; cases this
 
-/-- a prefix the parser has consumed without error, ending outside comment/raw -/
-def Viable (g : Grammar) (chk : Bytes → Option Cause) (pre : List Token) : Prop :=
-  ∃ s, parseLoop g chk {} pre = .ok s ∧ s.mode = .normal
-
 /-- **first error, object**: after a viable prefix, an object that `chk` rejects is the error,
     located at the object -/
 theorem first_error_obj (g : Grammar) (chk : Bytes → Option Cause) (pre rest : List Token) (t : Token) (c : Cause)
@@ -339,11 +335,12 @@ example : parseTokens stdGrammar exChk [exIf, exFor, exText, exElse, exObj] = .e
       by intro sg h; simp only [List.mem_singleton] at h; subst h; exact .obj _ _ _ rfl rfl .nil, rfl⟩
 
 /-- Conversely, an `unterminated` error at line `l` means the token list ends inside a comment, a
-    raw block or a block whose open tag `o` is on line `l`, and what follows `o` is comment/raw
-    interior, respectively a well-nested block interior (so `o` is the innermost open tag). -/
+    raw block or a block whose open tag `o` is on line `l`: the parser reaches `o` without error
+    (`Viable pre`), and what follows `o` is comment/raw interior, respectively a well-nested block
+    interior (so `o` is the innermost open tag). -/
 theorem unterminated_decompose (g : Grammar) (chk : Bytes → Option Cause) (toks : List Token) (l : Nat)
     (h : parseTokens g chk toks = .err ⟨.unterminated, l⟩) :
-    ∃ pre o rest, toks = pre ++ o :: rest ∧ l = o.line ∧
+    ∃ pre o rest, toks = pre ++ o :: rest ∧ l = o.line ∧ Viable g chk pre ∧
       ((g.isCommentOpen o = true ∧ ∀ t ∈ rest, isEndComment t = false) ∨
        (g.isRawOpen o = true ∧ ∀ t ∈ rest, isEndRaw t = false) ∨
        (g.isOpen o = true ∧ BlockInterior g chk o rest)) := by
@@ -355,37 +352,37 @@ theorem unterminated_decompose (g : Grammar) (chk : Bytes → Option Cause) (tok
   | unmodelled w => rw [hl] at h; cases h
   | ok s =>
     rw [hl] at h
-    obtain ⟨t1, t2, t3, heq, hs, hd, hm⟩ := loop_inv toks inv_init hl
-    simp only [List.nil_append] at heq
+    obtain ⟨t1, t2, t3, heq, hs, hd, hm, hrun⟩ := inv_of_loop hl
     obtain ⟨cur, st, mode⟩ := s
     cases mode with
     | comment o =>
       simp only at h; cases h
       obtain ⟨interior, rfl, ho, hi⟩ := hm
-      exact ⟨t1 ++ t2, o, interior, by simp [heq], rfl, .inl ⟨ho, hi⟩⟩
+      exact ⟨t1 ++ t2, o, interior, by simp [heq], rfl, ⟨_, hrun (by simp), rfl⟩, .inl ⟨ho, hi⟩⟩
     | raw o sl =>
       simp only at h; cases h
       obtain ⟨interior, rfl, ho, hi, _⟩ := hm
-      exact ⟨t1 ++ t2, o, interior, by simp [heq], rfl, .inr (.inl ⟨ho, hi⟩)⟩
+      exact ⟨t1 ++ t2, o, interior, by simp [heq], rfl, ⟨_, hrun (by simp), rfl⟩, .inr (.inl ⟨ho, hi⟩)⟩
     | normal =>
       simp only [ModeInv] at hm; subst hm
       cases st with
       | nil => cases h
       | cons f fs =>
         simp only at h; cases h
-        obtain ⟨u1, u2, rfl, _, hof, outerT, _, hf⟩ := hs
+        obtain ⟨u1, outerT, u2, rfl, _, ⟨hof, _, hf⟩, hfr⟩ := hs
         cases hfc : f.cur with
         | none =>
           rw [hfc] at hf
           simp only at hf
           obtain ⟨rfl, _⟩ := hf
-          exact ⟨u1 ++ outerT, f.tok, t2, by simp [heq], rfl, .inr (.inr ⟨hof, t2, _, [], hd, by simp, by simp, by simp [segToks]⟩)⟩
+          exact ⟨u1 ++ outerT, f.tok, t2, by simp [heq], rfl, ⟨_, hfr, rfl⟩,
+            .inr (.inr ⟨hof, t2, _, [], hd, by simp, by simp, by simp [segToks]⟩)⟩
         | some c =>
           rw [hfc] at hf
           simp only at hf
           obtain ⟨hc0, bodyT, body, segs, _, hbd, hsc, hsd, _, rfl⟩ := hf
           refine ⟨u1 ++ outerT, f.tok, bodyT ++ segToks (segs ++ [(c, t2, cur.reverse)]), by simp [heq, segToks_append, segToks],
-            rfl, .inr (.inr ⟨hof, bodyT, body, segs ++ [(c, t2, cur.reverse)], hbd, ?_, ?_, rfl⟩)⟩
+            rfl, ⟨_, hfr, rfl⟩, .inr (.inr ⟨hof, bodyT, body, segs ++ [(c, t2, cur.reverse)], hbd, ?_, ?_, rfl⟩)⟩
           · intro sg hsg
             rcases List.mem_append.mp hsg with hsg | hsg
             · exact hsc sg hsg
@@ -395,13 +392,74 @@ theorem unterminated_decompose (g : Grammar) (chk : Bytes → Option Cause) (tok
             · exact hsd sg hsg
             · simp only [List.mem_singleton] at hsg; rw [hsg]; exact hd
 
-example : ∃ pre o rest, [exIf, exFor, exText, exElse, exObj] = pre ++ o :: rest ∧ 2 = o.line ∧
+example : ∃ pre o rest, [exIf, exFor, exText, exElse, exObj] = pre ++ o :: rest ∧ 2 = o.line ∧ Viable stdGrammar exChk pre ∧
     ((stdGrammar.isCommentOpen o = true ∧ ∀ t ∈ rest, isEndComment t = false) ∨
      (stdGrammar.isRawOpen o = true ∧ ∀ t ∈ rest, isEndRaw t = false) ∨
      (stdGrammar.isOpen o = true ∧ BlockInterior stdGrammar exChk o rest)) :=
   unterminated_decompose stdGrammar exChk _ 2 (by rfl)
 
-/- OPEN (not proved): the decomposition above does not assert `Viable g chk pre`; with that
-   conjunct `unterminated_block`/`_comment`/`_raw` and `unterminated_decompose` would combine into
-   a single `unterminated_iff`. What is missing is the lemma "the invariant determines the run"
-   (a state satisfying `ParseInv` for `pre` is the state the machine reaches on `pre`). -/
+/-- **End of input inside a block / comment / raw, both directions.** The parser reports
+    `unterminated` at line `l` exactly when the token list is a prefix the parser consumes without
+    error, followed by an open tag on line `l` (of a comment, a raw block or a block) that is never
+    closed: the rest is comment/raw interior, respectively a well-nested block interior — so that
+    tag is the innermost open one. -/
+theorem unterminated_iff (g : Grammar) (ok : g.OK = true) (chk : Bytes → Option Cause) (toks : List Token) (l : Nat) :
+    parseTokens g chk toks = .err ⟨.unterminated, l⟩ ↔
+    ∃ pre o rest, toks = pre ++ o :: rest ∧ l = o.line ∧ Viable g chk pre ∧
+      ((g.isCommentOpen o = true ∧ ∀ t ∈ rest, isEndComment t = false) ∨
+       (g.isRawOpen o = true ∧ ∀ t ∈ rest, isEndRaw t = false) ∨
+       (g.isOpen o = true ∧ BlockInterior g chk o rest)) := by
+  constructor
+  · exact unterminated_decompose g chk toks l
+  · rintro ⟨pre, o, rest, rfl, rfl, hv, h | h | h⟩
+    · exact unterminated_comment g chk pre rest o hv h.1 h.2
+    · exact unterminated_raw g chk pre rest o hv h.1 h.2
+    · exact unterminated_block g ok chk pre rest o hv h.1 h.2
+
+theorem unterminated_iff_std (chk : Bytes → Option Cause) (toks : List Token) (l : Nat) :
+    parseTokens stdGrammar chk toks = .err ⟨.unterminated, l⟩ ↔
+    ∃ pre o rest, toks = pre ++ o :: rest ∧ l = o.line ∧ Viable stdGrammar chk pre ∧
+      ((stdGrammar.isCommentOpen o = true ∧ ∀ t ∈ rest, isEndComment t = false) ∨
+       (stdGrammar.isRawOpen o = true ∧ ∀ t ∈ rest, isEndRaw t = false) ∨
+       (stdGrammar.isOpen o = true ∧ BlockInterior stdGrammar chk o rest)) :=
+  unterminated_iff stdGrammar stdGrammar_ok chk toks l
+
+example : parseTokens stdGrammar exChk [exIf, exRaw, exEndif] = .err ⟨.unterminated, 6⟩ :=
+  (unterminated_iff_std exChk _ 6).mpr ⟨[exIf], exRaw, [exEndif], rfl, rfl, ⟨_, rfl, rfl⟩, .inr (.inl ⟨by decide, by decide⟩)⟩
+
+/-- **Every other error is the first offending token.** If parsing fails with an error that is not
+    `unterminated`, the token list splits into a prefix the parser consumes without error (ending
+    outside comment/raw), and a token `t` at whose line the error is located: an object whose
+    expression `chk` rejects (`objSyntax` with that cause), or a tag (`notInside`). With
+    `first_error_obj` / `first_error_notInside` this determines the error of every rejected list. -/
+theorem error_at_first_bad_token (g : Grammar) (chk : Bytes → Option Cause) (toks : List Token) (e : PErr)
+    (h : parseTokens g chk toks = .err e) :
+    e.kind = .unterminated ∨
+    ∃ pre t rest, toks = pre ++ t :: rest ∧ Viable g chk pre ∧ e.line = t.line ∧
+      ((t.ty = .obj ∧ ∃ c, chk t.args = some c ∧ e.kind = .objSyntax c) ∨ (t.ty = .tag ∧ e.kind = .notInside)) := by
+  unfold parseTokens at h
+  cases hl : parseLoop g chk {} toks with
+  | err e' =>
+    rw [hl] at h; simp only at h; cases h
+    obtain ⟨pre, t, rest, s1, h1, h2, h3⟩ := loop_err_split toks {} e hl
+    obtain ⟨hm, hline, hk⟩ := step_err_cases h3
+    exact .inr ⟨pre, t, rest, h1, ⟨s1, h2, hm⟩, hline, hk⟩
+  | panic w => rw [hl] at h; cases h
+  | unmodelled w => rw [hl] at h; cases h
+  | ok s =>
+    rw [hl] at h
+    obtain ⟨cur, st, mode⟩ := s
+    cases mode with
+    | comment o => simp only at h; cases h; exact .inl rfl
+    | raw o sl => simp only at h; cases h; exact .inl rfl
+    | normal =>
+      cases st with
+      | nil => cases h
+      | cons f fs => simp only at h; cases h; exact .inl rfl
+
+example : ∃ pre t rest, [exIf, exFor, exEndif] = pre ++ t :: rest ∧ Viable stdGrammar exChk pre ∧ 3 = t.line ∧
+    ((t.ty = .obj ∧ ∃ c, exChk t.args = some c ∧ PErrKind.notInside = .objSyntax c) ∨ (t.ty = .tag ∧ PErrKind.notInside = .notInside)) := by
+  have := error_at_first_bad_token stdGrammar exChk [exIf, exFor, exEndif] ⟨.notInside, 3⟩ (by rfl)
+  rcases this with h | h
+  · cases h
+  · exact h
